@@ -402,7 +402,10 @@ class Collection:
         if not name:
             if not self.default:
                 raise ValueError("This collection has no default task.")
-            return self[self.default], ours
+            # NOTE: the default may itself be a subcollection (with its own
+            # default); go through the regular lookup so configuration from
+            # the collections further down the path gets merged in too.
+            return self.task_with_config(self.default)
         # Normalize name to the format we're expecting
         name = self.transform(name)
         # Non-default tasks within subcollections -> recurse (sorta)
